@@ -720,7 +720,11 @@ pub fn run(args: &Args) -> ! {
     ev.set("nested_ignore_cases", nested.cases);
     ev.set("nested_ignore_cases_where_the_rule_hides_something", nested.cases_where_the_rule_hides_something);
     ev.set("nested_ignore_cases_with_the_named_entry_outside_the_holder", nested.cases_with_the_named_entry_outside_the_subtree);
-    if total.with_cycle == 0 || total.with_error == 0 || total.nontrivial == 0 {
+    // the sweep stops early once 60 discrepancies are on record; the coverage
+    // counters are only mandatory for a sweep that ran to its end
+    let stopped_early = found.load(std::sync::atomic::Ordering::Relaxed) >= 60;
+    ev.set("stopped_early_after_60_discrepancies", stopped_early);
+    if !stopped_early && (total.with_cycle == 0 || total.with_error == 0 || total.nontrivial == 0) {
         machinery_error("C06: a mandatory coverage counter is zero");
     }
     ev.set("evaluations", total.walks);
